@@ -225,8 +225,25 @@ def run_pair(harness_bin, ops_lines, workdir):
     ops = os.path.join(workdir, "ops.txt")
     with open(ops, "w") as f:
         f.write("\n".join(ops_lines) + "\n")
+    live = os.path.join(workdir, "oracle_live.txt")
+    if os.path.exists(live):
+        os.remove(live)
     rc, out = sh([harness_bin, "run", ops, "--out", workdir], timeout=3000)
     if rc != 0:
+        # the process died (heap corruption by the code under test, stack overflow, abort): what its journal holds is what
+        # the oracle had found until then, and the case it died in is a failure of its own
+        oracle, last_case = [], None
+        if os.path.exists(live):
+            for l in open(live, errors="replace").read().split("\n"):
+                parts = l.split("\t", 3)
+                if len(parts) == 3 and parts[0] == "@case":
+                    last_case = (int(parts[1]), int(parts[2]))
+                elif len(parts) == 4 and parts[0].lstrip("-").isdigit() and parts[1].isdigit():
+                    oracle.append((int(parts[0]), int(parts[1]), parts[2], parts[3]))
+        if last_case is not None:
+            msg = (out.strip().split("\n") or [""])[-1][:200]
+            oracle.append((last_case[0], last_case[1] + 1, "ANY", f"the process died in this case (exit status {rc}): {msg}"))
+            return dict(impl=[], model=[], oracle=oracle, dist={"dist": {"process_died": 1}, "nontrivial_cases": []}, crashed=True), None
         return None, f"harness run failed rc={rc}: {out[-500:]}"
     with open(ops) as fin:
         p = subprocess.run([DRIVER], stdin=fin, stdout=subprocess.PIPE, stderr=subprocess.PIPE, timeout=3000, text=True)
@@ -461,7 +478,7 @@ def conc_run(prop, harness_bin, flavor, gen, seed, tier, tag):
     return res
 
 
-MIRI_PROGRAMS = ["clone_clone", "drop_unjoined", "race_create", "inner_handles", "data_slots", "resolved", "green_share"]
+MIRI_PROGRAMS = ["clone_clone", "drop_unjoined", "race_create", "inner_handles", "data_slots", "resolved", "green_share", "green_tokens"]
 
 
 def miri_run(prop, seed, tier, tag):
